@@ -13,7 +13,9 @@ import (
 	rb "verifharness/ref/bech32"
 )
 
-func init() { core.Register(core.Check{ID: "C16", Level: "model_checking", Run: runC16}) }
+func init() {
+	core.Register(core.Check{ID: "C16", Level: "model_checking", Run: func(c *core.Ctx) { runC16(c); reentrancyPass(c, "C16") }})
+}
 
 const c16Window = 89 // h + d <= 89 for strings of <= 90 characters; must not be widened (see DESIGN.md)
 
@@ -230,7 +232,7 @@ func runC16(c *core.Ctx) {
 		validated += tails.Load()
 		c.Set("checksum_tails_enumerated_through_Decode", tails.Load())
 		c.Set("accepted_tails", int64(len(accepted)))
-		prefix := append(append([]byte{}, bech32.VerifHrpExpand("a")...))
+		prefix := append([]byte{}, bech32.VerifHrpExpand("a")...)
 		for _, tl := range accepted {
 			diff := 0
 			for i := range tl {
